@@ -84,6 +84,14 @@ def run(verbose=True):
             check(name, ok)
     except ImportError:
         pass
+    # pinned corpus of valid TON mnemonics: intact file, and a sample re-checked by the reference rule
+    from . import mnemonic
+    import hashlib as _h
+    import os as _os
+    mp = _os.path.join(_os.path.dirname(_os.path.abspath(__file__)), 'vectors', 'mnemonics.bin')
+    check('mnemonic corpus intact', _os.path.exists(mp) and _h.sha256(open(mp, 'rb').read()).hexdigest() == 'e71c30a780389b4472d0752d0ce9c838c0f5c41e35aef190ee25c81e8cef7779')
+    cp = mnemonic.corpus()
+    check('mnemonic corpus sample is valid by the reference rule', len(cp) == 16384 and all(mnemonic.is_basic_seed_ref([mnemonic.WORDS[i] for i in cp[k]]) for k in range(0, 16384, 1024)))
     return bad
 
 
